@@ -278,7 +278,10 @@ func showPM(pm app.Powermap) string {
 
 // digest of everything a replica answered for one history: marshalled responses and final state
 func historyDigests(u *Universe, h *History) []string {
-	im := NewImpl(u)
+	return historyDigestsWith(NewImpl(u), h)
+}
+
+func historyDigestsWith(im *Impl, h *History) []string {
 	out := []string{}
 	for _, op := range h.Ops {
 		r := im.Do(op)
@@ -356,6 +359,25 @@ func monitorC09(cfg CheckConfig, res *hx.Result, traces []*Trace) error {
 		}
 		if !cmp("second OS process, GOMAXPROCS=1 GOGC=20", strings.Fields(other[i])) {
 			return nil
+		}
+		// a replica that writes its state file at every Commit (the wall-clock decides when a real
+		// node does) must answer exactly like one that never persists
+		{
+			dir, err := os.MkdirTemp("", "verif-c09-gob-")
+			if err != nil {
+				return err
+			}
+			old := app.PersistMinDuration
+			app.PersistMinDuration = -1
+			im := NewImpl(NewUniverse(t.H.N))
+			im.Gobpath = dir + "/state.gob"
+			got := historyDigestsWith(im, t.H)
+			app.PersistMinDuration = old
+			os.RemoveAll(dir)
+			res.Count("c09:persisting-replica-comparisons")
+			if !cmp("replica persisting at every commit vs never persisting", got) {
+				return nil
+			}
 		}
 		for r := 0; r < repeats; r++ {
 			res.Count("c09:in-process-reruns")
